@@ -585,6 +585,7 @@ func (fr *Frame) onRelease(id Term, write bool, pos token.Pos) {
 	obj, n, field := fr.lockOwner(arg)
 	if field != "" {
 		fr.anchorAsserts("unlock", field, pos, nil)
+		defer fr.ghostAfter("unlock", field, map[string]*Val{})
 	}
 	if !write {
 		return
